@@ -26,6 +26,9 @@ pub struct PipeCfg {
     pub producer_stall: Option<(u32, u32)>,
     /// drop the consumer after that many messages
     pub drop_after: Option<usize>,
+    /// run the real Export plugin (lifecyclesToKeep) in the plugin stage: it forwards every message and looks
+    /// every new lifecycle id up in the shared table when the message reaches it (panics if it is unknown)
+    pub export: bool,
 }
 
 enum Tx {
@@ -120,13 +123,24 @@ pub fn run_pipeline(input: &[DltMessage], cfg: &PipeCfg) -> PipeResult {
             let _ = d.send(("lifecycle", ok));
         })
         .unwrap();
-    // plugin stage (no plugins configured: the stage forwards every message)
+    // plugin stage (no plugins configured: the stage forwards every message; or the Export plugin)
     let d = done_tx.clone();
+    let export_dir = if cfg.export { tempfile::tempdir().ok() } else { None };
+    let mut plugins: Vec<Box<dyn adlt::plugins::plugin::Plugin + Send>> = vec![];
+    if let Some(dir) = &export_dir {
+        let conf = json!({"name":"Export","exportFileName": dir.path().join("export.dlt").to_string_lossy(), "filters": [],
+            "lifecyclesToKeep":[{"ecu":"ECU1","startTime": 1_600_000_000_000_000u64, "endTime": 1_600_000_100_000_000u64}]});
+        if let Ok(mut pl) = adlt::plugins::export::ExportPlugin::from_json(conf.as_object().unwrap()) {
+            use adlt::plugins::plugin::Plugin;
+            pl.set_lifecycle_read_handle(&lcs_r);
+            plugins.push(Box::new(pl));
+        }
+    }
     std::thread::Builder::new()
         .name("plugins".into())
         .spawn(move || {
             let r = std::panic::catch_unwind(std::panic::AssertUnwindSafe(|| {
-                let _ = plugins_process_msgs(rx1, &|m| tx2.send(m), vec![]);
+                let _ = plugins_process_msgs(rx1, &|m| tx2.send(m), plugins);
                 drop(tx2);
             }));
             let _ = d.send(("plugins", r.is_ok()));
@@ -233,6 +247,7 @@ pub fn run_pipeline(input: &[DltMessage], cfg: &PipeCfg) -> PipeResult {
     }
     table.sort_by_key(|l| l.id);
     let after = snapshot();
+    drop(export_dir);
     PipeResult { out, table, blocked_stages: blocked, join_ms, send_full: after[Point::SendFull as usize] - before[Point::SendFull as usize], stage_panics }
 }
 
@@ -245,7 +260,7 @@ fn norm_out(out: &[DltMessage], t: &[LcInfo]) -> Vec<(u32, usize)> {
 }
 
 fn cfg_json(c: &PipeCfg) -> serde_json::Value {
-    json!({"caps": c.caps.map(|c| c.to_vec()), "sort": c.sort, "filter": c.filter, "consumer_stall": c.consumer_stall.map(|x| [x.0, x.1]), "producer_stall": c.producer_stall.map(|x| [x.0, x.1]), "drop_after": c.drop_after})
+    json!({"caps": c.caps.map(|c| c.to_vec()), "sort": c.sort, "filter": c.filter, "consumer_stall": c.consumer_stall.map(|x| [x.0, x.1]), "producer_stall": c.producer_stall.map(|x| [x.0, x.1]), "drop_after": c.drop_after, "export_plugin": c.export})
 }
 
 pub fn run(p: &Params) -> Report {
@@ -269,11 +284,28 @@ pub fn run(p: &Params) -> Report {
         }
         let max = if tiny { 12 } else { 40 + rng.usize_below(260) };
         let hostile = rng.chance(1, 2);
-        let s = gen_scenario(&mut rng, hostile, max);
-        let input = to_dlt(&s, i as u32);
+        let mut s = if !tiny && rng.chance(1, 4) { gen_targeted(&mut rng) } else { gen_scenario(&mut rng, hostile, max) };
+        let mut input = to_dlt(&s, i as u32);
+        // census guided selection (2/3 of the cases): the threaded pipelines are expensive (the helper sleeps 10 ms per
+        // full channel), so candidates are screened by a cheap synchronous run of the detector and one that takes the
+        // rare release paths (merge of a buffered lifecycle, flush after a merge, confirmation that releases messages
+        // of other lifecycles, >= 2 ECUs) is preferred. The census only steers the workload, it is never the oracle.
+        if !tiny && rng.chance(2, 3) {
+            for _try in 0..60 {
+                let r = crate::c06::run_case(&[input.clone()], crate::c06::Pacing::None, false, 0);
+                let c = |p: Point| r.census[p as usize];
+                if s.n_ecus >= 2 && c(Point::LcOutMergeFlush) > 0 && c(Point::LcOutConfirmOther) > 0 && c(Point::LcMergeBuffered) > 0 {
+                    rep.inc("scenarios_selected_by_census");
+                    break;
+                }
+                s = if rng.chance(1, 4) { gen_targeted(&mut rng) } else { gen_scenario(&mut rng, hostile, max) };
+                input = to_dlt(&s, i as u32);
+            }
+        }
         let sort = rng.chance(1, 4);
         let filter = rng.chance(1, 3);
-        let reference = run_pipeline(&input, &PipeCfg { caps: None, sort, filter, consumer_stall: None, producer_stall: None, drop_after: None });
+        let export = rng.chance(1, 2);
+        let reference = run_pipeline(&input, &PipeCfg { caps: None, sort, filter, consumer_stall: None, producer_stall: None, drop_after: None, export });
         if !reference.blocked_stages.is_empty() || !reference.stage_panics.is_empty() {
             rep.violation("reference-pipeline-failed", format!("blocked {:?} panics {:?}", reference.blocked_stages, reference.stage_panics), json!({"scenario": scenario_json(&s)}));
             continue;
@@ -312,7 +344,10 @@ pub fn run(p: &Params) -> Report {
             }
             _ => 0,
         };
-        let cfg = PipeCfg { caps: Some(caps), sort, filter, consumer_stall, producer_stall, drop_after };
+        let cfg = PipeCfg { caps: Some(caps), sort, filter, consumer_stall, producer_stall, drop_after, export };
+        if export {
+            rep.inc("pipelines_with_export_plugin");
+        }
         let res = run_pipeline(&input, &cfg);
         clear_pauses();
         rep.inc("evaluations");
@@ -373,6 +408,9 @@ pub fn run(p: &Params) -> Report {
                     rep.violation(if a2.len() < b2.len() { "lost" } else { "duplicated" }, format!("sorted pipeline delivered {} messages, reference {}", a2.len(), b2.len()), rp());
                     continue;
                 }
+                // informational only: the sorted order may legitimately depend on the pacing (the sort stage
+                // reads the lifecycle start at the time it first sees a lifecycle)
+                rep.inc(if a == b { "sorted_same_order_as_reference" } else { "sorted_order_differs_from_reference" });
             }
         }
         if res.send_full >= 20 {
